@@ -110,6 +110,10 @@ def check_C01(chk):
         for L in lens[::7]:
             k = next(nid)
             cases.append({"id": k, "len": L, "nsend": k % 2, "nrecv": k % 3 == 0 and 1 or 0, "nshm": k % 2, "level": "typed"})
+        # a few transient-refusal patterns too: "does not depend on how the transport happens to split the payload"
+        for pat in ("1", "01", "001", "0101"):
+            for L in (lens[len(lens) // 2], lens[-1], F.ffs(Sv) + 3 * F.fs(Sv) + 11):
+                cases.append({"id": next(nid), "len": L, "nsend": 1, "nrecv": 0, "nshm": 1, "faults": pat, "level": "platform"})
         jobs.append((bins["default"], S, cases, "default", True))
         if S in (4096, None):
             sub = [dict(c, id=next(nid)) for c in cases if c["level"] != "platform"][:60]
@@ -124,7 +128,7 @@ def check_C01(chk):
             c.update(nsend=0, nrecv=0, nshm=0)
     jobs.append((bins["inprocess"], None, inproc, "inprocess", False))
     items = run_parallel(jobs)
-    fails, bad = judge(chk, items, True, "c01", near_boundary)
+    fails, bad = judge(chk, items, lambda it: not it["case"].get("faults"), "c01", near_boundary)
     chk.coverage["rule"] = ("frag driver: per effective SO_SNDBUF value S (shim-reported) every length in {0,1,7,8,9} u {k*cap+d, k*fs+d, "
                             "cap+(k-1)*fs+d, k*(cap+8)+d : k=1..4} (d dense for S=4096 and the system default, 11 offsets otherwise) "
                             "plus random lengths, at platform / bytes / typed level, default + memfd + in-process builds; "
